@@ -70,9 +70,10 @@ def gen(seed: int, i: int, tier: str) -> dict:
     rng = random.Random(f"C17:{seed}:{i}")
     kind = rng.choice(["tcp", "serial"])
     lines = [rng.choice(LINES).hex() for _ in range(rng.randint(0, 8))]
-    overlong = rng.random() < 0.04
+    overlong = rng.random() < 0.05
     if overlong:
         lines.insert(rng.randint(0, len(lines)), "OVERLONG")
+        lines.append(b"1;1;1;0;2;1".hex())
     final_newline = rng.random() < 0.7
     end = rng.choice(["eof", "eof", "reset", "none", "none"])
     total = sum((70000 if h == "OVERLONG" else len(h) // 2) + 1 for h in lines)
@@ -320,6 +321,18 @@ def _run(scn, cfg, w, peer, res):
                 res.violate(PROP, "read", "overlong-line-returned", f"{len(val)} chars")
             else:
                 must_be_transport_error("read", val, "overlong-line")
+            # later reads may keep failing, but whatever they RETURN must be a line of the stream
+            real = set()
+            for lb in d_complete:
+                try:
+                    real.add((lb + b"\n").decode("utf-8", "strict"))
+                except UnicodeDecodeError:
+                    pass
+            for kr, v in results[idx + 1:]:
+                if kr == "ok" and v not in real:
+                    res.violate(PROP, "read", "phantom-line-after-overlong", f"{v[:60]!r} ({len(v)} chars) is not a line of the stream")
+                elif kr == "err" and not isinstance(v, AIOMySensorsError):
+                    res.violate(PROP, "read", f"non-library-error:{exc_name(v)}", "after an over-long line")
             stop_checking = True
             break
         try:
